@@ -60,6 +60,11 @@ CHECKS = {
             "For ~90 programs (hand-written wide-literal, multi-split, typed-map-fork, merge and multi-error programs; programs of the runtime families; the repository's fixtures) the compile error text, formatted text and serialized call graph are recomputed with each single dynamic map-iteration occurrence (>=2 keys; ~4000 occurrences) reversed and rotated; for the runtime-family programs the whole pipestance is re-executed likewise and job names (fork ids), per-fork _invocation files, job arguments and final outputs compared; all outputs must be byte-identical to the default-order run, and the default-order outputs must agree between worker processes.",
             "map iteration is modelled as a permutation of a key snapshot; two simultaneous permutations only in thorough for pairs within one operation (not built: single-occurrence only); address- or time-derived nondeterminism is covered only by the cross-process digest comparison",
             "DESIGN.md 4/C10"),
+    "C19": ("exploration",
+            "exhaustive edit enumeration (every callable/parameter x every refactoring operation) applied as cmd/mro/edit does, call-graph oracle with inverse renaming",
+            "12 programs (nested sub-pipelines, map calls, split stage, struct narrowing, projections, aliases, nested disabled modifiers, retains, wildcard bindings, outputs whose names are prefixes of one another): every callable renamed (fresh name, colliding with each aliased call id, and X->Y->X), every input and output parameter renamed (two new names) and removed (stage inputs; outputs nothing refers to), remove-unused-outputs / remove-unused-calls / both. The result must compile; the serialized call graph of the top-level call must equal the original's after the inverse renaming; for removals remaining nodes keep their inputs/disabled bindings and the top-level outputs, and no removed node is still referenced; X->Y->X must restore the canonical tree.",
+            "multi-file programs (edits across includes) are not in the corpus; removing a stage input whose binding was the only use of an enclosing pipeline input is treated as unspecified",
+            "DESIGN.md 4/C19"),
     "C15": ("exploration",
             "exhaustive site x edit-catalogue enumeration over base programs, two-sided EquivalentCall oracle plus real re-attach",
             "10 base programs (nested sub-pipelines, map calls, split stage, struct narrowing, projections, preflight, aliases, nested disabled modifiers, file types, retains) x every applicable site of 11 semantic edit kinds (rename call, change literal/top argument, add stage input/output, retype parameter, toggle split, retarget return, change/remove/add disabled) and 6 cosmetic kinds (reorder declarations, rename file type, add unused declarations, reformat, comments, whitespace): EquivalentCall must be false both ways for semantic and true both ways for cosmetic edits; the first site of each (base, kind) also goes through InvokePipeline + ReattachToPipestance(checkSrc) on a real pipestance directory; attach while locked must be refused and after unlock accepted.",
